@@ -383,6 +383,13 @@ func (d *P4d) decode(te *p4.TableEntry, forWrite bool) (*PEntry, []string) {
 				bad = append(bad, fmt.Sprintf("table %s field %s: LPM %x/%d does not fit %d bits", e.Table, f.Name, mt.Lpm.Value, mt.Lpm.PrefixLen, w))
 			}
 			pf.Value, pf.PrefixLen = be(mt.Lpm.Value), mt.Lpm.PrefixLen
+			if w <= 64 && mt.Lpm.PrefixLen >= 0 && mt.Lpm.PrefixLen <= w {
+				if rest := be(mt.Lpm.Value) & (uint64(1)<<uint(w-mt.Lpm.PrefixLen) - 1); rest != 0 {
+					// P4Runtime 9.1.1: "bits of the value that are not covered by the prefix must be zero", else the
+					// target rejects the entry with INVALID_ARGUMENT
+					bad = append(bad, fmt.Sprintf("table %s field %s: LPM value %x has bits set behind its prefix length %d", e.Table, f.Name, mt.Lpm.Value, mt.Lpm.PrefixLen))
+				}
+			}
 			keyParts = append(keyParts, fmt.Sprintf("%d=l%d/%d", f.Id, pf.Value, pf.PrefixLen))
 		case *p4.FieldMatch_Ternary_:
 			pf.Kind = "TERNARY"
@@ -393,6 +400,10 @@ func (d *P4d) decode(te *p4.TableEntry, forWrite bool) (*PEntry, []string) {
 				bad = append(bad, fmt.Sprintf("table %s field %s: ternary %x&%x does not fit %d bits", e.Table, f.Name, mt.Ternary.Value, mt.Ternary.Mask, w))
 			}
 			pf.Value, pf.Mask = be(mt.Ternary.Value), be(mt.Ternary.Mask)
+			if w <= 64 && be(mt.Ternary.Value)&^be(mt.Ternary.Mask) != 0 {
+				// P4Runtime 9.1.1: value bits outside the mask must be zero (INVALID_ARGUMENT otherwise)
+				bad = append(bad, fmt.Sprintf("table %s field %s: ternary value %x has bits set outside its mask %x", e.Table, f.Name, mt.Ternary.Value, mt.Ternary.Mask))
+			}
 			keyParts = append(keyParts, fmt.Sprintf("%d=t%d&%d", f.Id, pf.Value, pf.Mask))
 		case *p4.FieldMatch_Range_:
 			pf.Kind = "RANGE"
